@@ -5,9 +5,57 @@
  *                                -> "ret md5hex|-"  (xmp_load_module by path of the variant written to <tmpfile>)
  */
 #include "vcommon.h"
-#include "depackers/crc32.h"
-
 static unsigned char *base; static long bsize;
+static void load_variant(const char *tmp, const unsigned char *b, long n);
+#include "depackers/crc32.h"
+#include "depackers/lzx_unpack.h"
+#include "md5.h"
+
+/* LZX archives that begin with a merge record of two entries (one compressed stream shared by both files, as test-dev/data/lzxmerge):
+ * "LI" prints the MD5 of both packed files; "L pos mask which" flips stream byte `pos`, unpacks the damaged stream with the raw
+ * stream unpacker and, when that still works and the file changed, writes the CRC-32 of the damaged file `which` (1 or 2) into
+ * that entry's data-CRC field WITHOUT re-sealing the entry's header CRC, then loads the result: the header no longer passes its
+ * own check, so the entry must not be used. */
+static unsigned long rd32le(const unsigned char *p) { return p[0] | (p[1] << 8) | (p[2] << 16) | ((unsigned long)p[3] << 24); }
+static int lzx_layout(long *e1, long *e2, long *data, long *size1, long *size2, long *csize)
+{
+	if (bsize < 128 || memcmp(base, "LZX", 3)) return -1;
+	*e1 = 10; *e2 = *e1 + 31 + base[*e1 + 30] + base[*e1 + 14];
+	if (*e2 + 31 > bsize) return -1;
+	*data = *e2 + 31 + base[*e2 + 30] + base[*e2 + 14];
+	*size1 = rd32le(base + *e1 + 2); *size2 = rd32le(base + *e2 + 2); *csize = rd32le(base + *e2 + 6);
+	if (!(base[*e1 + 12] & 1) || !(base[*e2 + 12] & 1) || rd32le(base + *e1 + 6) != 0 || *csize == 0 || *data + *csize > bsize || base[*e2 + 11] != LZX_M_PACKED) return -1;
+	if (*size1 + *size2 > (64 << 20)) return -1;
+	return 0;
+}
+static void put_md5(const unsigned char *p, long n)
+{
+	MD5_CTX m; unsigned char d[16]; int i;
+	MD5Init(&m); MD5Update(&m, p, n); MD5Final(d, &m);
+	for (i = 0; i < 16; i++) printf("%02x", d[i]);
+}
+static void lzx_op(const char *tmp, const char *args, int info)
+{
+	long e1, e2, data, size1, size2, csize, pos = 0; unsigned mask = 0; int which = 1;
+	unsigned char *out0, *out, *bad;
+	if (lzx_layout(&e1, &e2, &data, &size1, &size2, &csize) < 0) { puts("?lzx"); return; }
+	out0 = malloc(size1 + size2 + 1); out = malloc(size1 + size2 + 1); bad = malloc(bsize);
+	if (lzx_unpack(out0, size1 + size2, base + data, csize, LZX_M_PACKED) != 0) { puts("?unpack"); goto done; }
+	if (info) { put_md5(out0, size1); putchar(' '); put_md5(out0 + size1, size2); printf(" %ld\n", csize); goto done; }
+	if (sscanf(args, "%ld %u %d", &pos, &mask, &which) < 2 || pos < 0 || pos >= csize) { puts("?"); goto done; }
+	memcpy(bad, base, bsize); bad[data + pos] ^= (unsigned char)mask;
+	if (lzx_unpack(out, size1 + size2, bad + data, csize, LZX_M_PACKED) != 0) { puts("SKIP undecodable"); goto done; }
+	{
+		const unsigned char *fp = which == 2 ? out + size1 : out; long fl = which == 2 ? size2 : size1, eo = which == 2 ? e2 : e1;
+		unsigned long c;
+		if (!memcmp(fp, which == 2 ? out0 + size1 : out0, fl)) { puts("SKIP unchanged"); goto done; }
+		c = libxmp_crc32_A(fp, fl, 0UL);
+		bad[eo + 22] = c & 0xff; bad[eo + 23] = (c >> 8) & 0xff; bad[eo + 24] = (c >> 16) & 0xff; bad[eo + 25] = (c >> 24) & 0xff;
+	}
+	load_variant(tmp, bad, bsize);
+done:
+	free(out0); free(out); free(bad);
+}
 
 static void load_variant(const char *tmp, const unsigned char *b, long n)
 {
@@ -53,6 +101,7 @@ int main(int argc, char **argv)
 			if (line[0] == 'B') { free(base); base = vf_read_file(line + 2, &bsize); if (!base) { puts("?base"); } continue; }
 			if (!base) { puts("?nobase"); continue; }
 			if (line[0] == 'O') { load_variant(tmp, base, bsize); continue; }
+			if (line[0] == 'L') { lzx_op(tmp, line + (line[1] == 'I' ? 2 : 1), line[1] == 'I'); continue; }
 			if (line[0] == 'M') {
 				/* "M off val off val ...": several bytes substituted at once (stored data damaged AND a check field rewritten) */
 				unsigned char *copy = malloc(bsize ? bsize : 1); char *q = line + 1; long o; unsigned vv; int n;
